@@ -57,21 +57,58 @@ def mapField (m : Rdfc10.SMap Str) : String :=
   if m.isEmpty then "_" else
   ",".intercalate (m.map fun (b, c) => hexStr b ++ ":" ++ String.ofList (c.drop 4))
 
-/-- oracle fields of C06.  `o.out` = the Recommendation (`Deviations.none`); where the two readings
-of step 2.1 give different results and the implementation model follows the per-occurrence
-reading, that reading's result is accepted instead (`x.reading=occurrence`).  `x.len=1`: the
-divergence disappears when the transcription is given the implementation's skip rule — used by the
-known-finding predicate to attribute it to `smaller_path`. -/
-def specFields (H : Str → Str) (quads : List Quad) (out : Str) : List String :=
+/-- blank node labels among the components of a quad (with repetition) -/
+def bnodeLabelsOf (q : Quad) : List Str :=
+  (Rdfc10.components q).filterMap (fun c => match c.1 with | .bnode b => some b | _ => none)
+
+/-- static upper bound of the length of any related-blank-node list of `b`: every occurrence of
+another blank node in a quad mentioning `b`, once per occurrence of `b` in that quad -/
+def relBound (quads : List Quad) (b : Str) : Nat :=
+  quads.foldl (fun acc q =>
+    let ls := bnodeLabelsOf q
+    let occ := ls.count b
+    acc + occ * (ls.length - occ)) 0
+
+/-- the dataset is within the documented limits *whatever the traversal*: no related list can be
+longer than the permutation limit, and the depth guard does not trip even at depth = number of
+blank nodes (the recursion depth is below that: every level issues a new identifier) -/
+def withinLimits (tooDeep : Nat → Nat → Bool) (permLimit : Nat) (quads : List Quad) : Bool :=
+  let ls := (quads.flatMap bnodeLabelsOf).eraseDups
+  ls.all (fun b => relBound quads b ≤ permLimit) && !tooDeep ls.length ls.length
+
+def hasSelfRef (quads : List Quad) : Bool :=
+  quads.any (fun q => let ls := bnodeLabelsOf q; ls.eraseDups.length != ls.length)
+
+/-- oracle fields of C06 (`out?` = what the model of the implementation produced, if it succeeded).
+ * `o.out` = canonical N-Quads per the transcription of the Recommendation (`Deviations.none`), emitted
+   whenever the transcription is defined — also when the model fails.  Not emitted for datasets with a
+   quad mentioning one blank node twice when the two readings of step 2.1 differ (there the
+   implementation is compared with its model only; `x.reading` says which reading the model follows).
+ * `o.st=ok` — "fails only with an explicit error for a limit actually exceeded": emitted when the
+   transcription succeeds and the dataset is statically within the configured limits (`withinLimits`).
+ * `x.len=1`: a divergence disappears when the transcription is given the length-first skip rule
+   (attribution for the former finding C06-smaller-path-length-first). -/
+def specFields (H : Str → Str) (tooDeep : Nat → Nat → Bool) (permLimit : Nat) (quads : List Quad)
+    (out? : Option Str) : List String :=
   match Rdfc10Spec.canonicalNQuads H quads with
   | none => []
   | some a =>
-    if a = out then [kv "o.out" (hexStr a), kv "x.reading" "both"] else
-    let b := (Rdfc10Spec.canonicalNQuadsWith ⟨true, false⟩ H quads).getD []
-    if b = out then [kv "o.out" (hexStr b), kv "x.reading" "occurrence"] else
-    let c := (Rdfc10Spec.canonicalNQuadsWith ⟨false, true⟩ H quads).getD []
-    let d := (Rdfc10Spec.canonicalNQuadsWith ⟨true, true⟩ H quads).getD []
-    [kv "o.out" (hexStr a), kvB "x.len" (c = out || d = out)]
+    let st := if withinLimits tooDeep permLimit quads then [kv "o.st" "ok"] else []
+    let outF :=
+      if !hasSelfRef quads then
+        match out? with
+        | some out =>
+          if a = out then [kv "o.out" (hexStr a), kv "x.reading" "both"] else
+          let c := (Rdfc10Spec.canonicalNQuadsWith ⟨false, true⟩ H quads).getD []
+          [kv "o.out" (hexStr a), kvB "x.len" (c = out)]
+        | none => [kv "o.out" (hexStr a)]
+      else
+        let b := (Rdfc10Spec.canonicalNQuadsWith ⟨true, false⟩ H quads).getD []
+        if a = b then [kv "o.out" (hexStr a), kv "x.reading" "same"] else
+        match out? with
+        | some out => [kv "x.reading" (if out = b then "occurrence" else if out = a then "node" else "neither")]
+        | none => []
+    st ++ outF
 
 def handle (withSpec : Bool) (line : String) : String :=
   match fields line with
@@ -84,13 +121,14 @@ def handle (withSpec : Bool) (line : String) : String :=
     | some H, some bits, some permLimit, some quads =>
       let df := Float32.ofBits bits
       match Rdfc10.relabelWith H (tooDeepF32 df) permLimit quads with
-      | .error e => reply [kv "st" (errName e)]
+      | .error e =>
+        reply ([kv "st" (errName e)] ++ (if withSpec then specFields H (tooDeepF32 df) permLimit quads none else []))
       | .ok (rq, idmap) =>
         let out := Rdfc10.serialize (Rdfc10.sortQuads rq)
         let pinned := (Rdfc10.groupSizes H quads).all (· ≤ 20)
         let base := [kv "st" "ok", kv "out" (hexStr out)] ++ (if pinned then [kv "map" (mapField idmap)] else []) ++
           [kv "dg" (String.ofList (H out))]
-        let spec := if withSpec then specFields H quads out else []
+        let spec := if withSpec then specFields H (tooDeepF32 df) permLimit quads (some out) else []
         reply (base ++ spec)
     | _, _, _, _ => "bad-op"
   | _ => "bad-op"
